@@ -24,9 +24,24 @@ func init() {
 	reg("R-CLOSED", "In the cone of the exported Tx methods every dereference of tx.db is dominated by a closed guard (tx.db != nil, or the nil-error edge of a guarantor call on the same tx), or the function is unexported and every call site passes an open transaction; tx.db is never dereferenced after being cleared.", ruleClosedGuard)
 	reg("R-DBCLOSED", "Exported DB methods dereference pointer-valued database state (index objects, ActiveFile) only behind the db.closed test or a successful Begin.", ruleDBClosedGuard)
 	reg("R-MAPOK", "Every use of DB.{BPTreeIdx,SetIdx,SortedSetIdx,ListIdx}[bucket] as a method receiver or struct base is preceded on all paths by the comma-ok test of the same map and key, by a store into that slot (ensure idiom), or by the nil-error edge of a guarantor call.", ruleMapOK)
+	reg("R-RO", "Every exported Tx method that does not reach the pending-write gate has an empty shared-write set (effect summaries: only fresh objects are written) and no file-creating/modifying effect; the one accepted idiom is opening an existing segment through NewDataFile(getDataPath(id)).", ruleRO)
+	reg("R-OWN", "Every exported mutating Tx method other than Commit/Rollback writes only Tx-private state; every call site of an index mutator (B+ tree Insert, list/set/sorted-set mutators, GetByRankRange with remove != false) lies in a function reachable from Tx.Commit or Open; Rollback writes no shared state and touches no file.", ruleOwn)
+	reg("R-SETLOG", "Every exported mutating set API reaches the pending-write gate (the mutation is a logged record).", ruleSetLogged)
+	reg("R-VISIBLE", "For each structure family, the write set of the mutators and the read set of the readers (transitive effect summaries) intersect: otherwise no operation can observe an earlier one of its own transaction and per-operation results cannot equal a serial execution.", ruleVisible)
+	reg("R-BACKUP", "The directory copy of Backup is the body of a function passed to db.View/Update on the same DB, its source is that DB's Options.Dir, and the body writes no shared state.", ruleBackup)
+	reg("R-GLOBALS", "No package-level variable of the module is written by a function reachable from an API entry point; the library contains no go statement.", ruleGlobals)
 }
 
 var properties = []Property{
+	{ID: "C18", Rules: []string{"R-BACKUP"},
+		Explain: "Decides that the backup copy runs with the database lock held for its whole duration (inside View on the same DB), copies the whole Options.Dir, and writes no shared state.",
+		NotCov:  "that the copy opens and shows the same state (depends on C09/C10 and on CopyDir), interaction with an unlocked Merge (C17)."},
+	{ID: "C06", Rules: []string{"R-SETLOG", "R-OWN", "R-RO"},
+		Explain: "Decides the clause 'SMove moves the member as part of the enclosing write transaction, with the same durability as any other write': every set mutation is a logged record (reaches the gate), no API edits index state directly, read APIs are effect-free.",
+		NotCov:  "equivalence with a mathematical set model over operation sequences (runtime values) - not applicable to static analysis."},
+	{ID: "C13", Rules: []string{"R-VISIBLE", "R-ORDER"},
+		Explain: "Decides a necessary condition of serial explanation: readers must be able to observe writes of earlier operations of the same transaction (write/read set intersection per family), and effects are applied in call order.",
+		NotCov:  "everything else about serial equivalence of per-operation results."},
 	{ID: "C20", Rules: []string{"R-CLOSED", "R-DBCLOSED", "R-MAPOK"},
 		Explain: "Decides three panic classes for every path: nil dereference of tx.db on a finished transaction (all exported Tx methods and their cones), nil dereference of database state after Close in exported DB methods, and method calls on the nil index object of a missing bucket.",
 		NotCov:  "total panic freedom: integer overflow, slice bounds from API integers (LRange / LRem extremes), NaN scores, allocation size, B+ tree shape invariants behind unchecked type assertions."},
@@ -46,8 +61,6 @@ var properties = []Property{
 		Explain: "Decides the sync-after-write protocol that durability under SyncEnable rests on: on every CFG path of Tx.Commit and of every helper it reaches, each file write is followed by a sync of the same handle before a normal return and before the next write; sync flags are bound to Options.SyncEnable; both RWManager.Sync implementations reach a real sync primitive.",
 		NotCov:  "what the kernel does with synced data, directory-entry durability, recovery of a torn tail (C09), enumeration of crash images."},
 }
-
-type Effects struct{}
 
 func runThorough(id, repo string, noEvid, verbose bool) int {
 	code := 0
